@@ -10,6 +10,13 @@ PYTHONPATH=$wt/src /venv/bin/python $demo > /tmp/confirm_${name}_clean.log 2>&1;
 git apply $patch || { echo "patch failed"; git -C /repo worktree remove --force $wt; exit 2; }
 PYTHONPATH=$wt/src /venv/bin/python $demo > /tmp/confirm_${name}_mut.log 2>&1; rc_mut=$?
 PYTHONPATH=$wt/src timeout 1200 /venv/bin/python -m pytest -q -p no:cacheprovider --timeout=900 -W ignore -x > /tmp/confirm_${name}_tests.log 2>&1; rc_tests=$?
+if [ $rc_tests -ne 0 ]; then
+  # timing assertions of the suite are load-sensitive: rerun just the failed tests on their own
+  failed=$(grep '^FAILED ' /tmp/confirm_${name}_tests.log | sed 's/^FAILED \([^ ]*\).*/\1/' | sort -u)
+  if [ -n "$failed" ]; then
+    PYTHONPATH=$wt/src timeout 600 /venv/bin/python -m pytest -q -p no:cacheprovider -p no:xdist -W ignore $failed > /tmp/confirm_${name}_tests_rerun.log 2>&1; rc_tests=$?
+  fi
+fi
 cd /verif
 git -C /repo worktree remove --force $wt
 mkdir -p seeded/$name
